@@ -40,10 +40,10 @@ Theorem C10_name_cache_coherent : forall self parent os,
 Proof. exact (fun self parent os => DirProofs.druns_coh os _ (DirProofs.dir_init_coh self parent)). Qed.
 Print Assumptions C10_name_cache_coherent.
 
-Theorem C10_lookup_answers_from_the_slots : forall st n st' r, DirProofs.coh st -> DirModel.lookup_name st n = (st', r) ->
+Theorem C10_lookup_answers_from_the_slots : forall st n st' r, DirProofs.coh st -> DirModel.dm_lookup st n = (st', r) ->
   DirProofs.coh st' /\ DirModel.d_slots st' = DirModel.d_slots st /\
   (forall i k, r = Some (i, k) <-> DirProofs.at_ (DirModel.d_slots st) k (n, i)).
-Proof. exact DirProofs.lookup_name_spec. Qed.
+Proof. exact DirProofs.dm_lookup_spec. Qed.
 Print Assumptions C10_lookup_answers_from_the_slots.
 
 (* IC (Model/IcacheModel.v, Proofs/IcacheProofs.v) — the inode cache under transactions (fstxn, cache, WriteInode):
